@@ -4,6 +4,7 @@ import (
 	"encoding/json"
 	"fmt"
 	"math"
+	"strings"
 	"time"
 
 	"github.com/influxdata/influxql"
@@ -19,6 +20,56 @@ type c10Case struct {
 	Shape    int   `json:"shape"`
 	Zone     int   `json:"zone"`
 	Thorough bool  `json:"thorough"`
+	Long     int   `json:"long,omitempty"`      // a flat chain of this many predicates …
+	LongKind int   `json:"long_kind,omitempty"` // … 0: host = 'hi' OR … in a group next to a time bound, 1: host != 'hi' AND … AND a time bound, 2: the time bound first
+}
+
+// c10long: a flat chain of many predicates is a conjunction (or a disjunction of non-time predicates) like any other:
+// nesting is what parentheses do, not what the number of terms does. The chain ends in the one term that decides
+// between host a and host b.
+func c10long(c c10Case) []ev.Finding {
+	var terms []string
+	for i := 0; i < c.Long-1; i++ {
+		if c.LongKind == 0 {
+			terms = append(terms, fmt.Sprintf("host = 'h%d'", i))
+		} else {
+			terms = append(terms, fmt.Sprintf("host != 'h%d'", i))
+		}
+	}
+	bound := fmt.Sprintf("time >= %d", cmV0)
+	var text string
+	switch c.LongKind {
+	case 0:
+		text = "(" + strings.Join(append(terms, "host = 'a'"), " OR ") + ") AND " + bound
+	case 1:
+		text = strings.Join(append(terms, "host = 'a'"), " AND ") + " AND " + bound
+	default:
+		text = bound + " AND " + strings.Join(append(terms, "host = 'a'"), " AND ")
+	}
+	wit := fmt.Sprintf("a chain of %d predicates, kind %d: %.80s…", c.Long, c.LongKind, text)
+	expr, err := influxql.ParseExpr(text)
+	if err != nil {
+		return []ev.Finding{{Sig: "generator:rejected", Witness: wit, Detail: err.Error(), Case: c}}
+	}
+	var resid influxql.Expr
+	var tr influxql.TimeRange
+	if p, st := try(func() { resid, tr, err = influxql.ConditionExpr(expr, &influxql.NowValuer{Now: cmNow}) }); p != nil {
+		return []ev.Finding{{Sig: "panic:ConditionExpr", Witness: wit, Detail: fmt.Sprint(p) + st, Case: c, Rank: c.Long}}
+	}
+	if err != nil {
+		return []ev.Finding{{Sig: "error:long-flat-chain:" + ev.SigSafe(err.Error()), Witness: wit, Detail: "ConditionExpr failed on an in-scope condition: " + err.Error(), Case: c, Rank: c.Long}}
+	}
+	if tr.MinTimeNano() != cmV0 || tr.MaxTimeNano() != int64(influxql.MaxTime) {
+		return []ev.Finding{{Sig: "split-changes-meaning:long-flat-chain", Witness: wit, Detail: fmt.Sprintf("range [%d,%d], want [%d,%d]", tr.MinTimeNano(), tr.MaxTimeNano(), cmV0, int64(influxql.MaxTime)), Case: c, Rank: c.Long}}
+	}
+	for _, h := range []string{"a", "b", "h0"} {
+		got := resid == nil || influxql.EvalBool(resid, map[string]interface{}{"host": h})
+		want := h == "a" || (c.LongKind == 0 && h == "h0" && c.Long >= 2)
+		if got != want {
+			return []ev.Finding{{Sig: "split-changes-meaning:long-flat-chain", Witness: wit, Detail: fmt.Sprintf("the residual is %v for host=%s", got, h), Case: c, Rank: c.Long}}
+		}
+	}
+	return nil
 }
 
 func c10atoms(th bool) []cmAtom {
@@ -30,6 +81,9 @@ func c10atoms(th bool) []cmAtom {
 var c10tables = map[bool][]cmAtom{false: c10atoms(false), true: c10atoms(true)}
 
 func c10eval(c c10Case) []ev.Finding {
+	if c.Long > 0 {
+		return c10long(c)
+	}
 	tab := c10tables[c.Thorough]
 	var atoms []cmAtom
 	for _, i := range c.Atoms {
@@ -165,6 +219,16 @@ func c10run(r *ev.Run) {
 		}
 	}
 	_ = points
+	for _, n := range []int{2, 33, 65, 101, 102, 103, 150, 257, 1000} {
+		for kind := 0; kind < 3; kind++ {
+			c := c10Case{Long: n, LongKind: kind}
+			r.Eval()
+			r.State(astx.HashString(fmt.Sprintf("L|%d|%d", n, kind)), true)
+			for _, f := range c10long(c) {
+				r.Report(f)
+			}
+		}
+	}
 	for z := range cmZones {
 		z := z
 		parallelFor(n, func(i int) {
